@@ -553,6 +553,12 @@ func (c20) Generate(seed uint64, i int, tier string) *Scenario {
 			if r.Chance(1, 4) {
 				op.Op = "foreign"
 				op.Args = []int64{int64(r.Intn(5))}
+			} else if r.Chance(1, 4) {
+				op.Op = "copywrong"
+				op.Args = []int64{int64(r.Intn(5))}
+			} else if r.Chance(1, 2) {
+				op.Op = "augset"
+				op.Args = []int64{int64(r.Intn(5))}
 			}
 		case m < 97:
 			op.Op = "new"
@@ -1282,6 +1288,42 @@ func viewsAgree(m *starproto.Message) string {
 	return bad
 }
 
+// unsetDefaults: a field the message does not hold reads as the empty / zero
+// value of its declared kind (an empty repeated or map view, 0, "", b"", False,
+// the enum's zero value, an empty sub-message).
+func unsetDefaults(m *starproto.Message) string {
+	pm := m.Message().ProtoReflect()
+	fds := pm.Descriptor().Fields()
+	for i := 0; i < fds.Len(); i++ {
+		fd := fds.Get(i)
+		if pm.Has(fd) {
+			continue
+		}
+		got, err := m.Attr(string(fd.Name()))
+		if err != nil || got == nil {
+			return fmt.Sprintf("unset field %s cannot be read: %v", fd.Name(), err)
+		}
+		ok := false
+		switch {
+		case fd.IsList():
+			rf, isrf := got.(*starproto.RepeatedField)
+			ok = isrf && rf.Len() == 0
+		case fd.IsMap():
+			mf, ismf := got.(*starproto.MapField)
+			ok = ismf && mf.Len() == 0
+		case fd.Message() != nil:
+			mm, ism := got.(*starproto.Message)
+			ok = ism && mm.Message().ProtoReflect().Descriptor() == fd.Message()
+		default:
+			ok = pvEqual(fd, got, fd.Default())
+		}
+		if !ok {
+			return fmt.Sprintf("unset field %s (%s) reads as %s %v", fd.Name(), fd.Kind(), got.Type(), got)
+		}
+	}
+	return ""
+}
+
 // afterOp: clause (2) type validity of every live message, clause (4) frozen
 // encodings unchanged.
 func (x *c20run) afterOp() {
@@ -1301,6 +1343,12 @@ func (x *c20run) afterOp() {
 		if bad := viewsAgree(m); bad != "" {
 			x.fail("read-back-differs", "v%d: %s", i, bad)
 			return
+		}
+		if x.opIdx%3 == 0 {
+			if bad := unsetDefaults(m); bad != "" {
+				x.fail("read-back-differs", "v%d: %s", i, bad)
+				return
+			}
 		}
 	}
 	idx := make([]int, 0, len(x.snaps))
@@ -1365,8 +1413,52 @@ func (x *c20run) apply(op Op) {
 			x.frozen[op.Obj] = false
 			delete(x.snaps, op.Obj)
 		}
+	case "copywrong":
+		// constructing a message from a message of another type is refused
+		forms := []string{"R = Msg(B.sub)\n", "R = Sub(B)\n", "R = Msg(B.r_sub)\n", "R = Msg([B])\n", "R = Sub({\"s\": \"x\"}, n=1)\n"}
+		v, err := run(forms[int(op.Args[0])%len(forms)])
+		if len(x.res.Violations) > nviol {
+			return
+		}
+		if err == nil {
+			x.fail("invalid-value-accepted", "%s returned %v", strings.TrimSpace(forms[int(op.Args[0])%len(forms)]), v)
+		}
+	case "augset":
+		// augmented assignment to a field: read, combine, store
+		forms := []struct{ field, op, operand string }{
+			{"f_int32", "+", "1"}, {"f_uint64", "+", "1"}, {"f_string", "+", "\"x\""}, {"f_int64", "-", "1"}, {"f_double", "+", "0.5"},
+		}
+		f := forms[int(op.Args[0])%len(forms)]
+		stmt := fmt.Sprintf("A.%s %s= %s", f.field, f.op, f.operand)
+		before, _, _ := x.star("R = A."+f.field+"\n", env)
+		_, err := run("def op():\n    " + stmt + "\nop()\nR = None\n")
+		if len(x.res.Violations) > nviol || mustFailFrozen(err, stmt) {
+			return
+		}
+		if targetFrozen || before == nil {
+			return
+		}
+		env["V"] = before
+		want, werr, _ := x.star("R = V "+f.op+" "+f.operand+"\n", env)
+		got, _, _ := x.star("R = A."+f.field+"\n", env)
+		if err != nil {
+			// e.g. int32 overflow: must then be unchanged
+			if eq, _ := starlark.Equal(got, before); !eq {
+				x.fail("lossy-assignment", "%s failed (%v) yet the field went %v -> %v", stmt, err, before, got)
+			}
+			return
+		}
+		if werr == nil && want != nil && got != nil {
+			if eq, _ := starlark.Equal(got, want); !eq {
+				x.fail("lossy-assignment", "%s: field was %v, now reads %v, expected %v", stmt, before, got, want)
+			}
+		}
 	case "copy":
-		if v, err := run("R = Msg(B)\n"); err == nil {
+		if v, err := run("R = Msg(B)\n"); err != nil {
+			if len(x.res.Violations) == nviol {
+				x.fail("valid-value-rejected", "Msg(m) of a message of the same type: %v", err)
+			}
+		} else {
 			if !bytes.Equal(detEnc(v.(*starproto.Message)), detEnc(B)) {
 				x.fail("copy-differs", "Msg(m) does not equal m")
 			}
